@@ -698,7 +698,7 @@ class ConnInterp:
         out = []
         # a conditional expression choosing between string literals (a variable name picked per mesh type, say) is evaluated as the branch it is
         if isinstance(n, (ast.Assign, ast.Return, ast.AugAssign)) and n.value is not None:
-            ife = next((x for x in ast.walk(n.value) if isinstance(x, ast.IfExp) and (str_const(x.body) is not None or str_const(x.orelse) is not None)), None)
+            ife = next((x for x in ast.walk(n.value) if isinstance(x, ast.IfExp)), None)
             if ife is not None:
                 import copy
                 for truth, pick in ((True, "body"), (False, "orelse")):
